@@ -307,6 +307,14 @@ def run_bandit(case, driver):
             tags.append("seed:uniform-%s-at-draw-%d" % ("0" if st == 0 else "max", kk))
     seen = set()
     L = mk_learner(spec)
+    # reference for "the probability with which the current policy selects it": a second learner of the same construction that is
+    # taught exactly the same (action, reward) sequence and is only ever asked through fresh action lists that are all kept alive
+    shadow = mk_learner(spec)
+    keep = []
+    shared = []           # one list object refilled in place when the case says so (callers do reuse their action list)
+    if case.get("shared_list"):
+        tags.append("actions:same-list-object-refilled")
+    since_learn = 0
     mirror = UcbMirror() if lt == "ucb" else None
     mhist = []            # the history as the model sees it
     cmp = []              # (index into model outs, kind, impl value, description)
@@ -335,6 +343,12 @@ def run_bandit(case, driver):
             actions = [resolve(case, r) for r in refs]
             if op.get("as_tuple"):
                 actions = tuple(actions)
+            elif case.get("shared_list"):
+                shared[:] = actions
+                actions = shared
+            since_learn += 1
+            if since_learn >= 2:
+                tags.append("calls:consecutive-without-learn")
             maxn = max(maxn, len(actions))
             tags.append("n:%d" % min(len(actions), 6))
             if seen and not set(ids) <= seen:
@@ -381,6 +395,16 @@ def run_bandit(case, driver):
                     B("predict(%r, %r) returned (%r, %r) but score of that action is %r (call #%d)" % (ctx, actions, a, p, sc, k), "predict-prob-differs-from-score")
             except Exception as e:
                 B("score of the predicted action raised %r (call #%d)" % (e, k), "score-raises-" + type(e).__name__)
+            if not malformed:
+                try:
+                    keep.append(list(actions))
+                    ref_p = shadow.score(ctx, keep[-1], keep[-1][idx])
+                    if not (is_real(ref_p) and close(ref_p, p)):
+                        B("predict(%r, %r) returned (%r, %r) but an identically taught %s gives that action probability %r (call #%d, %d calls since the last learn%s)" % (
+                            ctx, list(actions), a, p, learner_src(spec), ref_p, k, since_learn, ", the same list object refilled in place" if case.get("shared_list") else ""),
+                          "predict-prob-differs-from-policy")
+                except Exception:
+                    pass
             last = ids[idx]
             mhist.append({"op": "predict", "actions": ids, "vals": vals_for(ids)})
             cmp.append((len(mhist) - 1, "pred", (idx, p, ids), "predict #%d" % k))
@@ -407,6 +431,16 @@ def run_bandit(case, driver):
                 continue
             if any(v < 0 for v in vec):
                 B("score(%r, %r, .) = %r has a negative entry (call #%d)" % (ctx, actions, vec, k), "score-negative")
+            if not malformed:
+                try:
+                    keep.append(list(actions))
+                    ref_v = [shadow.score(ctx, keep[-1], x) for x in keep[-1]]
+                    if not all(is_real(x) and close(x, y) for x, y in zip(ref_v, vec)):
+                        B("score(%r, %r, .) = %r but an identically taught %s scores the same actions %r (call #%d, %d calls since the last learn%s)" % (
+                            ctx, list(actions), vec, learner_src(spec), ref_v, k, since_learn, ", the same list object refilled in place" if case.get("shared_list") else ""),
+                          "score-differs-from-policy")
+                except Exception:
+                    pass
             if len(vec) > 1 and sum(1 for v in vec if v == max(vec)) > 1:
                 tags.append("pmf:tie")
             if any(v == 0 for v in vec):
@@ -448,6 +482,11 @@ def run_bandit(case, driver):
                 tags.append("learn:never-offered-action")
             if not 0 <= r <= 1:
                 tags.append("reward:outside-[0,1]")
+            since_learn = 0
+            try:
+                shadow.learn(ctx, aval, r, num(op.get("p", [1, 2])))
+            except Exception:
+                pass
             try:
                 L.learn(ctx, aval, r, num(op.get("p", [1, 2])))
                 impl.append({"op": name, "ok": True})
@@ -942,6 +981,8 @@ def gen_spec(rng, n_fixed=None, allow_fixed=True, allow_mis=True, boundary=True)
         spec = {"type": "random", "seed": seed}
     if allow_mis and rng.chance(0.25):
         spec["mis"] = [[q(rng.choice([0, 1, -3, 0.5, 2.25])), q(rng.choice([1, -1, 7, 0.5, 0, -2.5]))] for _ in range(rng.choice([1, 1, 2]))]
+        if rng.chance(0.35):      # rewards with a large offset / scale reach the wrapped learner (cancellation in running statistics)
+            spec["mis"][0] = [q(float(rng.choice([1e6, 1e8, 1e8, 1e10, 1e12, -1e9, 123456789.0]))), q(float(rng.choice([1, 1, 1, -1, 0.5, 1e6, 1e-6])))]
     return spec
 
 
@@ -970,9 +1011,15 @@ def gen_bandit(rng, tier, search=False):
         nops = rng.choice([2, 3, 5, 8])
     hist = []
     wide = spec["type"] != "ucb" or bool(spec.get("mis"))
+    eval_tail = rng.chance(0.3)            # evaluation-only stream after a learning phase: consecutive predict/score calls without learn
     while len(hist) < nops:
         r = rng.below(100)
         ctx = rng.choice(CONTEXTS) if rng.chance(0.3) else ["n", None]
+        if eval_tail and len(hist) >= nops // 2:
+            r = rng.choice([10, 10, 60, 95])
+            hist.append({"op": "predict", "actions": action_set(), "ctx": ctx} if r < 50 else
+                        {"op": "scores", "actions": action_set(), "ctx": ctx})
+            continue
         if r < 50:
             op = {"op": "predict", "actions": action_set(), "ctx": ctx}
             if rng.chance(0.1):
@@ -989,6 +1036,8 @@ def gen_bandit(rng, tier, search=False):
             acts = action_set()
             hist.append({"op": "score", "actions": acts, "a": rng.choice(acts), "ctx": ctx})
     case = {"t": "bandit", "learner": spec, "pool": pool, "hist": hist}
+    if rng.chance(0.3):
+        case["shared_list"] = True
     # malformed stream (outside the quantifier; only model = implementation is compared)
     if not search and rng.chance(0.06):
         case["malformed"] = True
@@ -1066,7 +1115,8 @@ def snippet_bandit(case):
     spec = case["learner"]
     lines = ["import sys, os, math; sys.path.insert(0, os.environ.get('COBA_REPO', '/repo'))",
              "from coba.learners import *", "from coba.learners import MisguidedLearner",
-             "L = " + learner_src(spec), "last = None"]
+             "L = " + learner_src(spec), "last = None", "A = []   # the caller's action list"]
+    sh = bool(case.get("shared_list"))
     for op in case["hist"]:
         ctx = py_lit(op.get("ctx", ["n", None]))
         if op["op"] in ("predict", "scores", "score"):
@@ -1074,10 +1124,10 @@ def snippet_bandit(case):
             if op.get("as_tuple"):
                 acts = "tuple(%s)" % acts
         if op["op"] == "predict":
-            lines += ["A = %s" % acts, "a, p = L.predict(%s, A); last = a" % ctx,
+            lines += [("A[:] = %s   # same list object, refilled in place" if sh and not op.get("as_tuple") else "A = %s") % acts, "a, p = L.predict(%s, A); last = a" % ctx,
                       "print('predict', a, p, 'score of it', L.score(%s, A, a)); assert any(a is x or a == x for x in A) and p > 0" % ctx]
         elif op["op"] == "scores":
-            lines += ["A = %s" % acts, "v = [L.score(%s, A, x) for x in A]; print('scores', v, sum(v)); assert min(v) >= 0 and abs(sum(v)-1) <= 1e-9" % ctx]
+            lines += [("A[:] = %s" if sh else "A = %s") % acts, "v = [L.score(%s, A, x) for x in A]; print('scores', v, sum(v)); assert min(v) >= 0 and abs(sum(v)-1) <= 1e-9" % ctx]
         elif op["op"] == "score":
             lines += ["print('score', L.score(%s, %s, %s))" % (ctx, acts, py_lit(case["pool"][op["a"][0]][op["a"][1]]))]
         elif op["op"] == "learn":
